@@ -325,6 +325,10 @@ pub fn c19_check_one(
     // ---- cumulative over one stream iterator
     if cfg.kind == Kind::Standard && !anchored && cfg.supports(false) && !pats.iter().any(|p| p.is_empty()) && span == (0, hay.len()) {
         let sched = [7usize, 0, 1, 64];
+      // once with the crate's default buffer and once with a tiny one (hook),
+      // so that the buffer rolls every few bytes
+      for spare in [None, Some(2usize)] {
+        verif::set_stream_buffer_spare(spare);
         verif::reset_counters();
         verif::set_work_limit(4 * hay.len() as u64 + 64);
         let r = guard(|| -> Result<usize, String> {
@@ -348,7 +352,9 @@ pub fn c19_check_one(
             }
         });
         verif::set_work_limit(u64::MAX);
+        verif::set_stream_buffer_spare(None);
         rep.eval();
+        rep.tally_n("stream_rolls_observed", verif::counters().rolls);
         match r {
             Err(p) => rep.violation(&sigp("stream", "panic_or_work_limit"), format!("stream search aborted: {}", p), c19_case_json(pats, cfg, hay, span, anchored, "stream")),
             Ok(Err(e)) => rep.violation(&sigp("stream", "error"), e, c19_case_json(pats, cfg, hay, span, anchored, "stream")),
@@ -359,6 +365,7 @@ pub fn c19_check_one(
                 rep.tally("stream_iterators_measured");
             }
         }
+      }
     }
 }
 
